@@ -211,3 +211,267 @@ Print Assumptions c01_run_depends_on_rows_only. Print Assumptions c01_run_on_any
 Print Assumptions c01_run_timeout_indexed_refines. Print Assumptions c01_run_after_interrupted_run_timeout.
 Print Assumptions c01_example_overwrite_history. Print Assumptions c01_example_resume_history.
 Print Assumptions c01_count_trusting_update_refuted_overwrite. Print Assumptions c01_count_trusting_update_refuted_resume.
+
+(* ================= END TO END: surface program -> desugar -> planner -> engine =================
+   For every SURFACE program (disjunctions, ?patterns, wildcards, repeated variables, negation, several heads ...) meeting the
+   decidable wf_surface (C07) and wf_binding, every state of the name counters, every SCC partition meeting sccs_ok, every input
+   and join-order oracle: running the plan the planner model computes for the desugared program yields the least model of the
+   program under its DIRECT surface denotation (Syntax/Surface.v).  Proofs: Syntax/EndToEnd*.v (composition of C07's
+   desugaring theorems, the new lemma 'the desugarer's output is wf_core', the planner theorem and the engine theorem). *)
+From Coq Require Import List ZArith Bool Arith Ascii String.
+From AV Require Import Engine.Core.
+From AV Require Import Engine.Sem.
+From AV Require Import Engine.Eval.
+From AV Require Import Engine.Naive.
+From AV Require Import Engine.InterfaceAgg.
+From AV Require Import Engine.MainAgg.
+From AV Require Import Engine.Vocab.
+From AV Require Import Plan.PlanModel.
+From AV Require Import Plan.PlanWf.
+From AV Require Import Syntax.Surface.
+From AV Require Import Syntax.Desugar.
+From AV Require Import Syntax.ToCore.
+From AV Require Import Syntax.C07Main.
+From AV Require Import Syntax.C07Example.
+From AV Require Import Syntax.EndToEndDefs.
+From AV Require Import Syntax.EndToEndWf.
+From AV Require Import Syntax.EndToEndNoAgg.
+From AV Require Import Syntax.EndToEnd.
+From AV Require Import Syntax.EndToEndSugared.
+Import ListNotations.
+(* ================= proposed for Props/C01.v ================= *)
+(* END TO END, relations only.  For every surface program without aggregation / negation meeting the two boolean
+   well-formedness predicates, every interpretation in which `==` is equality, not() negation and `let` evaluates its
+   expression, every state of the name counters: the front end's output translates to a core program Pc that is
+   well formed, and for EVERY SCC partition accepted by sccs_ok, every input of the declared arities, every join-order
+   oracle and fuel: if the run of the plan COMPUTED by the planner model terminates within the fuel, its rows are the least
+   model of the SURFACE program under its direct denotation, and they extend the input without duplicates. *)
+Theorem c01_end_to_end_least_model : forall (I : interp) swap arities P cs,
+  wf_surface P = true -> wf_binding arities P = true -> no_agg_surface P = true -> interp_ok I (prog_fsyms P) ->
+  exists Pc, core_of_prog (desugar_prog cs P) = Some Pc /\ wf_core arities Pc = true /\ no_agg Pc = true
+    /\ forall sccs fuel F0 st,
+         arities_functional arities -> wf_facts arities F0 = true -> sccs_ok Pc sccs = true ->
+         run_plan I swap fuel (compile_model arities Pc sccs) (init_state F0) = Some st ->
+         sleast_model I P F0 (rows st)
+         /\ exists added, rows st = F0 ++ added /\ NoDup added /\ (forall f, In f added -> ~ In f F0).
+Proof. exact end_to_end_least_model. Qed.
+(* the same, written with the function to_core = core translation of the desugared program *)
+Theorem c01_end_to_end_least_model_fn : forall (I : interp) swap arities P cs sccs fuel F0 st,
+  wf_surface P = true -> wf_binding arities P = true -> no_agg_surface P = true -> interp_ok I (prog_fsyms P) ->
+  arities_functional arities -> wf_facts arities F0 = true -> sccs_ok (to_core cs P) sccs = true ->
+  run_plan I swap fuel (compile_model arities (to_core cs P) sccs) (init_state F0) = Some st ->
+  sleast_model I P F0 (rows st)
+  /\ exists added, rows st = F0 ++ added /\ NoDup added /\ (forall f, In f added -> ~ In f F0).
+Proof. exact end_to_end_least_model_fn. Qed.
+(* hence the result does not depend on the counter state, the SCC partition, the join-order oracle or the fuel *)
+Theorem c01_end_to_end_deterministic : forall (I : interp) swap swap' arities P cs cs' sccs sccs' fuel fuel' F0 st st',
+  wf_surface P = true -> wf_binding arities P = true -> no_agg_surface P = true -> interp_ok I (prog_fsyms P) ->
+  arities_functional arities -> wf_facts arities F0 = true ->
+  sccs_ok (to_core cs P) sccs = true -> sccs_ok (to_core cs' P) sccs' = true ->
+  run_plan I swap fuel (compile_model arities (to_core cs P) sccs) (init_state F0) = Some st ->
+  run_plan I swap' fuel' (compile_model arities (to_core cs' P) sccs') (init_state F0) = Some st' ->
+  forall f, In f (rows st) <-> In f (rows st').
+Proof. exact end_to_end_deterministic. Qed.
+
+(* END TO END with aggregation / negation, EVERY sccs_ok partition.  An arbitrary partition may put two rules of the disjunction
+   product of one sugared rule into different SCCs, so the strata are groups of DESUGARED rules: the rows are the stratified
+   model (aggregated relations of a stratum held fixed) of the strata the partition induces on desugar_prog cs P read with the
+   DIRECT surface denotation, and the desugared program derives from every fact set exactly what P derives. *)
+Theorem c01_end_to_end_strat_model_desugared : forall (I : interp) swap arities P cs,
+  wf_surface P = true -> wf_binding arities P = true -> interp_ok I (prog_fsyms P) ->
+  exists Pc, core_of_prog (desugar_prog cs P) = Some Pc /\ wf_core arities Pc = true
+    /\ (forall F f, sderives I P F f <-> sderives I (desugar_prog cs P) F f)
+    /\ forall sccs fuel F0 st,
+         arities_functional arities -> wf_facts arities F0 = true -> NoDup F0 -> agg_perm_invariant I -> sccs_ok Pc sccs = true ->
+         run_plan I swap fuel (compile_model arities Pc sccs) (init_state F0) = Some st ->
+         sstrat_model_fixed I (surface_strata (desugar_prog cs P) sccs) F0 (rows st)
+         /\ NoDup (rows st) /\ exists added, rows st = F0 ++ added.
+Proof. exact end_to_end_strat_model. Qed.
+
+(* END TO END with aggregation / negation, strata of P's OWN sugared rules: for every ordered grouping [groups] of the rule
+   numbers of P, the partition whose SCCs are the rule numbers (in the desugared program) of the disjunction products of each
+   group's rules: if it is sccs_ok and the run terminates, the rows are the stratified model of the groups of SUGARED rules under
+   the direct denotation, the relations a group aggregates or negates held fixed in its stratum. *)
+Theorem c01_end_to_end_strat_model_sugared :
+  forall (I : interp) swap arities P cs (groups : list (list nat)) fuel F0 st,
+    wf_surface P = true -> wf_binding arities P = true -> interp_ok I (prog_fsyms P) ->
+    arities_functional arities -> wf_facts arities F0 = true -> NoDup F0 -> agg_perm_invariant I ->
+    let sccs := map (fun g => flat_map (fun k => nth k (block_numbers cs P 0) []) g) groups in
+    sccs_ok (to_core cs P) sccs = true ->
+    run_plan I swap fuel (compile_model arities (to_core cs P) sccs) (init_state F0) = Some st ->
+    sstrat_model_sugared I (map (fun g => filter_map (fun k => nth_error P k) g) groups) F0 (rows st).
+Proof. exact end_to_end_strat_model_sugared. Qed.
+
+(* ================= an instance, by computation =================
+   edge = 0 (arity 2), path = 1 (2), node = 2 (1), loop = 3 (1)
+     path(x, y) <-- (edge(x, y) | edge(y, x));          disjunction
+     path(x, z) <-- edge(x, y), path(y, z);             transitive closure
+     node(x)    <-- edge(x, _);                         wildcard
+     loop(x)    <-- path(x, x);                         repeated variable                                        *)
+Open Scope Z_scope.
+Definition va (s : string) : sarg := AT (SVar (i s)).
+Definition tv (s : string) : sterm := SVar (i s).
+Definition tc_prog : list srule :=
+  [ {| sheads := [(1%nat, [tv "x"; tv "y"])]; sbody := [IDisj [[IClause 0%nat [va "x"; va "y"] []]; [IClause 0%nat [va "y"; va "x"] []]]] |};
+    {| sheads := [(1%nat, [tv "x"; tv "z"])]; sbody := [IClause 0%nat [va "x"; va "y"] []; IClause 1%nat [va "y"; va "z"] []] |};
+    {| sheads := [(2%nat, [tv "x"])]; sbody := [IClause 0%nat [va "x"; AWildS] []] |};
+    {| sheads := [(3%nat, [tv "x"])]; sbody := [IClause 1%nat [va "x"; va "x"] []] |} ].
+Definition tc_arities : list (rel * nat) := [(0, 2); (1, 2); (2, 1); (3, 1)]%nat.
+(* 5 desugared rules: the two disjuncts and the recursive rule form the SCC of path *)
+Definition tc_sccs : list (list nat) := [[0; 1; 2]; [3]; [4]]%nat.
+Definition tc_input : list fact := [(0%nat, [1; 2]); (0%nat, [2; 3]); (0%nat, [4; 4])].
+Definition tc_rows : list fact :=
+  [(0%nat, [1; 2]); (0%nat, [2; 3]); (0%nat, [4; 4]); (1%nat, [1; 2]); (1%nat, [2; 3]); (1%nat, [4; 4]);
+   (1%nat, [2; 1]); (1%nat, [3; 2]); (1%nat, [1; 3]); (1%nat, [1; 1]); (1%nat, [2; 2]); (2%nat, [1]);
+   (2%nat, [2]); (2%nat, [4]); (3%nat, [4]); (3%nat, [1]); (3%nat, [2])].
+Definition same_set (a b : list fact) : bool := forallb (fun f => mem_fact f b) a && forallb (fun f => mem_fact f a) b.
+
+(* the hypotheses hold by computation; the pipeline desugar -> to_core -> compile_model -> run_plan yields tc_rows; the naive
+   fix-point of the SURFACE program under its direct denotation has the same facts *)
+Example e2e_example_hypotheses :
+  wf_surface tc_prog = true /\ wf_binding tc_arities tc_prog = true /\ no_agg_surface tc_prog = true
+  /\ List.length (to_core [] tc_prog) = 5%nat /\ sccs_ok (to_core [] tc_prog) tc_sccs = true /\ wf_facts tc_arities tc_input = true.
+Proof. repeat split; vm_compute; reflexivity. Qed.
+Example e2e_example_runs :
+  option_map rows (run_plan std_interp std_swap 50 (compile_model tc_arities (to_core [] tc_prog) tc_sccs) (init_state tc_input)) = Some tc_rows
+  /\ exists M, snaive_fix std_interp 50 tc_prog tc_input = Some M /\ same_set M tc_rows = true.
+Proof. split; [vm_compute; reflexivity|]. eexists. split; vm_compute; reflexivity. Qed.
+Lemma std_interp_ok_nil : interp_ok std_interp [].
+Proof. split; [intros a b; reflexivity|]. split; [intros [|t ts]; reflexivity | intros f vs []]. Qed.
+Lemma arities_functional_dec : forall ar,
+  forallb (fun p => forallb (fun q => negb (Nat.eqb (fst p) (fst q)) || Nat.eqb (snd p) (snd q)) ar) ar = true -> arities_functional ar.
+Proof.
+  intros ar H r n m Hn Hm. rewrite forallb_forall in H. specialize (H _ Hn). rewrite forallb_forall in H. specialize (H _ Hm). cbn [fst snd] in H.
+  rewrite Nat.eqb_refl in H. cbn [negb orb] in H. apply Nat.eqb_eq. exact H.
+Qed.
+Lemma tc_arities_functional : arities_functional tc_arities.
+Proof. apply arities_functional_dec. vm_compute. reflexivity. Qed.
+(* and by the theorem, tc_rows is the least model of the sugared program over the input *)
+Example e2e_example_least_model : sleast_model std_interp tc_prog tc_input tc_rows.
+Proof.
+  destruct (run_plan std_interp std_swap 50 (compile_model tc_arities (to_core [] tc_prog) tc_sccs) (init_state tc_input)) as [st|] eqn:E.
+  - assert (Hr : rows st = tc_rows). { pose proof (proj1 e2e_example_runs) as H. rewrite E in H. cbn [option_map] in H. inversion H. reflexivity. }
+    rewrite <- Hr. destruct e2e_example_hypotheses as [H1 [H2 [H3 [_ [H5 H6]]]]].
+    exact (proj1 (end_to_end_least_model_fn std_interp std_swap tc_arities tc_prog [] tc_sccs 50 tc_input st H1 H2 H3 std_interp_ok_nil
+                    tc_arities_functional H6 H5 E)).
+  - pose proof (proj1 e2e_example_runs) as H. rewrite E in H. discriminate H.
+Qed.
+
+(* with negation, strata of the SUGARED rules:   unreach(x) <-- node(x), !path(1, x);   unreach = 4 (arity 1) *)
+Definition neg_rule : srule :=
+  {| sheads := [(4%nat, [tv "x"])]; sbody := [IClause 2%nat [va "x"] []; INeg 1%nat [NKey (SConst 1); NKey (SVar (i "x"))]] |}.
+Definition neg_prog : list srule := tc_prog ++ [neg_rule].
+Definition neg_arities : list (rel * nat) := tc_arities ++ [(4, 1)]%nat.
+Definition neg_groups : list (list nat) := [[0; 1]; [2]; [3]; [4]]%nat.                 (* groups of SUGARED rules *)
+Definition neg_sccs : list (list nat) := map (fun g => flat_map (fun k => nth k (block_numbers [] neg_prog 0) []) g) neg_groups.
+Definition neg_rows : list fact := tc_rows ++ [(4%nat, [4])].
+Example e2e_example_neg_hypotheses :
+  wf_surface neg_prog = true /\ wf_binding neg_arities neg_prog = true /\ neg_sccs = [[0; 1; 2]; [3]; [4]; [5]]%nat
+  /\ sccs_ok (to_core [] neg_prog) neg_sccs = true /\ wf_facts neg_arities tc_input = true.
+Proof. repeat split; vm_compute; reflexivity. Qed.
+Example e2e_example_neg_runs :
+  option_map rows (run_plan std_interp std_swap 50 (compile_model neg_arities (to_core [] neg_prog) neg_sccs) (init_state tc_input)) = Some neg_rows
+  /\ exists M, sstrat_fix std_interp 50 (map (fun g => filter_map (fun k => nth_error neg_prog k) g) neg_groups) tc_input = Some M
+              /\ same_set M neg_rows = true.
+Proof. split; [vm_compute; reflexivity|]. eexists. split; vm_compute; reflexivity. Qed.
+Example e2e_example_neg_strat_model :
+  sstrat_model_sugared std_interp (map (fun g => filter_map (fun k => nth_error neg_prog k) g) neg_groups) tc_input neg_rows.
+Proof.
+  destruct (run_plan std_interp std_swap 50 (compile_model neg_arities (to_core [] neg_prog) neg_sccs) (init_state tc_input)) as [st|] eqn:E.
+  - assert (Hr : rows st = neg_rows). { pose proof (proj1 e2e_example_neg_runs) as H. rewrite E in H. cbn [option_map] in H. inversion H. reflexivity. }
+    rewrite <- Hr. destruct e2e_example_neg_hypotheses as [H1 [H2 [_ [H4 H5]]]].
+    assert (Har : arities_functional neg_arities) by (apply arities_functional_dec; vm_compute; reflexivity).
+    assert (Hnd : NoDup tc_input). { repeat constructor; cbn; intuition discriminate. }
+    exact (end_to_end_strat_model_sugared std_interp std_swap neg_arities neg_prog [] neg_groups 50%nat tc_input st H1 H2 std_interp_ok_nil
+             Har H5 Hnd std_interp_agg_perm_invariant H4 E).
+  - pose proof (proj1 e2e_example_neg_runs) as H. rewrite E in H. discriminate H.
+Qed.
+
+Print Assumptions c01_end_to_end_least_model. Print Assumptions c01_end_to_end_least_model_fn. Print Assumptions c01_end_to_end_deterministic.
+Print Assumptions c01_end_to_end_strat_model_desugared. Print Assumptions c01_end_to_end_strat_model_sugared.
+Print Assumptions e2e_example_hypotheses. Print Assumptions e2e_example_runs. Print Assumptions e2e_example_least_model.
+Print Assumptions e2e_example_neg_hypotheses. Print Assumptions e2e_example_neg_runs. Print Assumptions e2e_example_neg_strat_model.
+
+(* ================= the engine on the MODEL INDEX TYPES of C19 =================
+   Engine/ConcreteEval.v: every index field a value of Index/IndexModel.v's hvec / fmap, every step the modelled operation the
+   generated code calls; simulates the per-index engine above (Props/C19.v c19_engine_on_model_types_refines_indexed_engine). *)
+From Coq Require Import List ZArith Bool Permutation.
+From AV Require Import Index.IndexModel.
+From AV Require Import Index.IndexRefine.
+From AV Require Import Engine.Core Engine.Sem Engine.Eval Engine.Validate Engine.Naive Engine.Interface Engine.Main Engine.Vocab Engine.Examples.
+From AV Require Import Engine.InterfaceAgg Engine.MainAgg.
+From AV Require Import Engine.IndexedEval Engine.IndexedSim Engine.IndexedRefine.
+From AV Require Import Engine.ConcreteEval Engine.ConcreteBase Engine.ConcreteRefine.
+Import ListNotations.
+Open Scope Z_scope.
+
+(* ================= proposed for Props/C01.v: the engine theorem on the concrete index types ================= *)
+Theorem c01_concrete_engine_least_model :
+  forall (sh : forall A : Type, list A -> list A), permuting sh ->
+  forall (enc : list Z -> Z) (dec : Z -> list Z), (forall l, dec (enc l) = l) ->
+  forall (I : interp), agg_perm_invariant I ->
+  forall swap, swap_perm_invariant swap ->
+  forall decls pl, plan_idx_ok decls pl = true ->
+  forall arities P, arities_functional arities -> no_agg P = true -> validate arities P pl = true ->
+  forall fuel F0 c, wf_facts arities F0 = true -> NoDup F0 -> (forall f, In f F0 -> fact_idx_ok decls f = true) ->
+  run_plan_concrete sh enc dec I swap fuel pl (c_init_state decls F0) = Some c ->
+  least_model I P F0 (crows c)
+  /\ (exists added, Permutation (crows c) (F0 ++ added) /\ NoDup added /\ (forall f, In f added -> ~ In f F0))
+  /\ concrete_indices_agree sh dec (cstored c).
+Proof. exact concrete_run_least_model. Qed.
+
+(* all concrete index fields of a relation agree after run(), from any related program values (duplicate rows included, no validity
+   of the plan with respect to a source program needed) *)
+Theorem c01_concrete_indices_agree :
+  forall (sh : forall A : Type, list A -> list A), permuting sh ->
+  forall (enc : list Z -> Z) (dec : Z -> list Z), (forall l, dec (enc l) = l) ->
+  forall (I : interp), agg_perm_invariant I ->
+  forall swap, swap_perm_invariant swap ->
+  forall decls pl, plan_idx_ok decls pl = true ->
+  forall fuel c a c', Rst enc decls c a ->
+  run_plan_concrete sh enc dec I swap fuel pl c = Some c' -> concrete_indices_agree sh dec (cstored c').
+Proof. exact concrete_indices_agree_after_run. Qed.
+
+Theorem c01_concrete_rerun_idempotent :
+  forall (sh : forall A : Type, list A -> list A), permuting sh ->
+  forall (enc : list Z -> Z) (dec : Z -> list Z), (forall l, dec (enc l) = l) ->
+  forall (I : interp), agg_perm_invariant I ->
+  forall swap, swap_perm_invariant swap ->
+  forall decls pl, plan_idx_ok decls pl = true ->
+  forall arities P, arities_functional arities -> no_agg P = true -> validate arities P pl = true ->
+  forall fuel fuel' F0 c1 c2, wf_facts arities F0 = true -> NoDup F0 -> (forall f, In f F0 -> fact_idx_ok decls f = true) ->
+  run_plan_concrete sh enc dec I swap fuel pl (c_init_state decls F0) = Some c1 ->
+  wf_facts arities (crows c1) = true ->
+  run_plan_concrete sh enc dec I swap fuel' pl c1 = Some c2 ->
+  Permutation (crows c2) (crows c1) /\ concrete_indices_agree sh dec (cstored c2).
+Proof. exact concrete_rerun_idempotent. Qed.
+
+(* the hypotheses are satisfiable: the plan the real macro dumped for transitive closure, the reversing order oracle, the example encoding *)
+Example c01_concrete_example_hypotheses :
+  permuting sh_rev /\ (forall l, dec_list (enc_list l) = l) /\ agg_perm_invariant std_interp /\ swap_perm_invariant std_swap
+  /\ plan_idx_ok tc_decls tc_plan = true /\ forallb (fact_idx_ok tc_decls) tc_input = true.
+Proof.
+  split; [exact sh_rev_permuting|]. split; [exact dec_enc_list|]. split; [exact std_interp_agg_perm_invariant|].
+  split; [exact std_swap_perm_invariant|]. exact tc_indexed_hyps.
+Qed.
+
+Example c01_concrete_example_runs : exists c,
+  run_plan_concrete sh_rev enc_list dec_list std_interp std_swap 20 tc_plan (c_init_state tc_decls tc_input) = Some c
+  /\ length (crows c) = 25%nat
+  /\ map (fun x => snd (fst x)) (c_dump_stored sh_rev dec_list c) = [[]; [1%nat]; [0%nat; 1%nat]; [0%nat]; [0%nat; 1%nat]]
+  /\ map snd (c_dump_lens c) = [1; 5; 5; 4; 20].
+Proof. exact tc_concrete_runs. Qed.
+
+Example c01_concrete_example_least_model : exists c,
+  run_plan_concrete sh_rev enc_list dec_list std_interp std_swap 20 tc_plan (c_init_state tc_decls tc_input) = Some c
+  /\ least_model std_interp tc_prog tc_input (crows c)
+  /\ concrete_indices_agree sh_rev dec_list (cstored c).
+Proof. exact tc_concrete_least_model. Qed.
+
+Print Assumptions c01_concrete_engine_least_model.
+Print Assumptions c01_concrete_indices_agree.
+Print Assumptions c01_concrete_rerun_idempotent.
+Print Assumptions c01_concrete_example_hypotheses.
+Print Assumptions c01_concrete_example_runs.
+Print Assumptions c01_concrete_example_least_model.
+
